@@ -349,13 +349,14 @@ CHECKS = {
                 "127.0.0.1/.2/.3, default / two free ports, network names, credentials differing per source, two cookie files) and the fake bitcoind listens on every "
                 "candidate (address, port); observed: exit status 1 + message + zero bitcoind requests for a refusal; otherwise the one address where the HTTP API answers, the "
                 "one where the private API listens, where bitcoind requests arrive and with which Authorization header, the network directory of the database, the slots / "
-                "duration granted by a registration, and (every third case) whether a restart with overwrite_key in the file / --overwritekey replaces the tower key. The "
+                "duration granted by a registration, (every third case) whether a restart with overwrite_key in the file / --overwritekey replaces the tower key, and (every "
+                "fourth case) whether, with a bitcoind pruned above the tower's last known block, a restart goes ahead only when --forceupdate is on the command line. The "
                 "first 40 cases sweep each of 10 options through none / file / command line / both.",
         "assumptions": [
             "configuration files are well-formed TOML with correctly typed values; command lines are ones the parser accepts",
             "btc_rpc_port = 0 is read as 'not set explicitly'",
             "the network names 'main' and 'test' (accepted by the code, not in the documented list) carry no expectation either way",
-            "e3cfg needs the documented default ports (9814 8814 8332 18332 18443 38332 50051) free on the machine, else it reports inconclusive; force_update, the tor options and the debug flags are not observed at the binary level",
+            "e3cfg needs the documented default ports (9814 8814 8332 18332 18443 38332 50051) free on the machine, else it reports inconclusive; the tor options and the debug flags are not observed at the binary level",
         ],
     },
 }
